@@ -11,7 +11,7 @@ from __future__ import annotations
 
 import numpy as np
 
-from checks import l2
+from checks import l1, l2
 from symx import core, facade, stubs
 from symx.core import AND, IFF, IMPLIES, ITE, NOT, OR, is_sym
 
@@ -163,7 +163,7 @@ def ref_channel(cs, n):
         for k, t in enumerate(range(sl.ti, sl.tf)):
             amp[t] = amp[t] + a[k]
             det[t] = det[t] + d[k]
-            if not cs.is_detuned_delay(sl.type):
+            if not l1.ref_is_detuned_delay(sl.type):
                 phase_at[t] = facade._unwrap0(sl.type.phase)
     return amp, det, phase_at
 
